@@ -127,6 +127,12 @@ def _apply(ctx, cfg):
         return U.index_of([by[s] if s in A else bx[s] for s in range(n)])
     import random
     rnd = random.Random(3)
+    # history: one SWAP object serves states with other numbers of sites before it meets this one
+    reused = {}
+    others = []
+    for m in (n + 1, n + 2) + tuple(m for m in sorted({1, n - 1}) if 1 <= m < n and all(s < m for s in A)):
+        so = DC.make_state("positive", m, 1)
+        others.append((so, so.generate_hilbert_space(m)[: 3].clone()))
     for B in (1, 2, 3, 4):
         if B > D:
             continue
@@ -138,7 +144,17 @@ def _apply(ctx, cfg):
             with N.stubbed(state, "importance_sampling_weight", w_stub), N.stubbed(state, "importance_sampling_numerator", num_stub), \
                     N.stubbed(state, "importance_sampling_denominator", den_stub):
                 res = SWAP(Aenc).apply(state, batch)
+                if enc not in reused:
+                    reused[enc] = [SWAP(Aenc), SWAP(Aenc)]
+                    for so, sb in others:                     # first met by a longer / by a shorter state
+                        reused[enc][0 if sb.shape[-1] > n else 1].apply(so, sb)
+                res_h = reused[enc][0].apply(state, batch)
+                res_h2 = reused[enc][1].apply(state, batch)
             ctx.holds("apply/one-real-per-row[B=%d %s]" % (B, enc), tuple(res.shape) == (B,), str(tuple(res.shape)))
+            ctx.eq_arrays("history: a SWAP object used on states with other numbers of sites (and on earlier batches) gives the same values[B=%d %s]" % (B, enc),
+                          st._obj(res_h), st._obj(res), z3_confirm=False)
+            ctx.eq_arrays("history: a SWAP object first used on a state with fewer sites gives the same values[B=%d %s]" % (B, enc),
+                          st._obj(res_h2), st._obj(res), z3_confirm=False)
             for i in range(B):
                 j = (i + 1) % B if canary == "spec-partner-is-next" else (i - 1) % B
                 si, sj = rows[i], rows[j]
